@@ -134,6 +134,7 @@ func checkC18(p *Prog, r *Report) {
 	c18Codec(p, r)
 	c15Cow(p, r, "C18")
 	c18Belief(p, r)
+	c18Publication(p, r)
 }
 
 func c18Types(p *Prog, r *Report) {
@@ -213,7 +214,7 @@ func c18Immutable(p *Prog, r *Report) {
 
 func c18Codec(p *Prog, r *Report) {
 	const rule = "C18.codec-publication"
-	r.Rule(rule, "the backend connection's frame codec, replaced by Handshake while reader and writer goroutines run, is only loaded/stored through atomic.Value")
+	r.Rule(rule, "the frame codec of a backend connection (replaced by Handshake) and of a client connection (replaced on STARTUP) is changed while other goroutines encode and decode with it: both are only loaded/stored through atomic.Value")
 	f := p.Field("proxycore", "ClientConn", "codec")
 	var bad []string
 	n := 0
@@ -230,6 +231,25 @@ func c18Codec(p *Prog, r *Report) {
 		}
 	}
 	r.check(len(bad) == 0 && n >= 2, rule, "ClientConn.codec", p.Pos(f.Pos()), fmt.Sprintf("%d accesses", n), strings.Join(dedupe(bad), " || "))
+
+	// the client-facing connection's codec: replaced by the reader goroutine on STARTUP while the
+	// connection's writer goroutine and backend reader goroutines encode replies with it
+	cf := clientCodecRoles(p).field
+	var cbad []string
+	cn := 0
+	for _, acc := range fieldAccesses(p.ScopedFuncs("proxy"), cf) {
+		cn++
+		ok := false
+		if acc.Kind == "addr-call" {
+			if c, isCall := acc.Instr.(*ssa.Call); isCall && (callIsMethod(c, "sync/atomic", "Value", "Load") || callIsMethod(c, "sync/atomic", "Value", "Store")) {
+				ok = true
+			}
+		}
+		if !ok {
+			cbad = append(cbad, fmt.Sprintf("%s: %s of the client connection's codec in %s is not an atomic.Value operation: the field is replaced on STARTUP by the connection's reader while its writer goroutine and backend readers encode with it", p.Pos(acc.Instr.Pos()), acc.Kind, acc.Fn.Name()))
+		}
+	}
+	r.check(len(cbad) == 0 && cn >= 2, rule, "client.codec", p.Pos(cf.Pos()), fmt.Sprintf("%d accesses", cn), strings.Join(dedupe(cbad), " || "))
 }
 
 // c18Belief: the discipline the code itself believes in, for fields not listed in
@@ -376,4 +396,122 @@ func lockAcquirers(p *Prog, la *lockAnalysis, in ssa.Instruction, lock *types.Va
 		out = append(out, rootFn(fn))
 	}
 	return out
+}
+
+// c18Publication: an object is handed to a shared registry (a map field, a sync.Map, a channel)
+// only when it is complete: the constructing function writes none of its fields after the
+// call that publishes it.  Another goroutine that finds the object in the registry would read
+// the field while it is being written (or before: a nil field).
+func c18Publication(p *Prog, r *Report) {
+	const rule = "C18.publication"
+	r.Rule(rule, "a freshly built object is stored into a shared registry (map field, sync.Map, channel) only after its last field was written by the function that builds it: no field store follows the publishing call")
+	var publishes func(fn *ssa.Function, idx int, depth int) bool
+	publishes = func(fn *ssa.Function, idx int, depth int) bool {
+		if fn == nil || fn.Blocks == nil || !p.InRepo(fn) || idx >= len(fn.Params) {
+			return false
+		}
+		par := ssa.Value(fn.Params[idx])
+		from := func(v ssa.Value) bool {
+			for _, o := range origins(v) {
+				if o == par {
+					return true
+				}
+				if mi, ok := o.(*ssa.MakeInterface); ok && mi.X == par {
+					return true
+				}
+			}
+			return false
+		}
+		found := false
+		eachInstr(fn, func(in ssa.Instruction) {
+			switch x := in.(type) {
+			case *ssa.MapUpdate:
+				if f, _ := loadedField(x.Map); f != nil && (from(x.Key) || from(x.Value)) {
+					found = true
+				}
+			case *ssa.Send:
+				if from(x.X) {
+					found = true
+				}
+			case *ssa.Call:
+				if callIsMethod(x, "sync", "Map", "Store") || callIsMethod(x, "sync", "Map", "LoadOrStore") {
+					for _, a := range x.Call.Args[1:] {
+						if from(a) {
+							found = true
+						}
+					}
+				} else if depth > 0 {
+					if callee := x.Call.StaticCallee(); callee != nil {
+						for i, a := range x.Call.Args {
+							if from(a) && publishes(callee, i, depth-1) {
+								found = true
+							}
+						}
+					}
+				}
+			}
+		})
+		return found
+	}
+	before := func(a, b ssa.Instruction) bool {
+		if a.Block() == b.Block() {
+			for _, in := range a.Block().Instrs {
+				if in == a {
+					return true
+				}
+				if in == b {
+					return false
+				}
+			}
+		}
+		return a.Block().Dominates(b.Block())
+	}
+	n := 0
+	for _, fn := range p.ScopedFuncs("proxy", "proxycore", "astra") {
+		eachInstr(fn, func(in ssa.Instruction) {
+			al, ok := in.(*ssa.Alloc)
+			if !ok || !al.Heap {
+				return
+			}
+			if _, isStruct := al.Type().(*types.Pointer).Elem().Underlying().(*types.Struct); !isStruct || namedOf(al.Type()) == nil {
+				return
+			}
+			var pubs []ssa.Instruction
+			var stores []*ssa.Store
+			for _, ref := range *al.Referrers() {
+				switch x := ref.(type) {
+				case *ssa.Call:
+					if callee := x.Call.StaticCallee(); callee != nil {
+						for i, a := range x.Call.Args {
+							if a == ssa.Value(al) && publishes(callee, i, 2) {
+								pubs = append(pubs, x)
+							}
+						}
+					}
+				case *ssa.FieldAddr:
+					for _, rr := range *x.Referrers() {
+						if st, ok := rr.(*ssa.Store); ok && st.Addr == ssa.Value(x) {
+							stores = append(stores, st)
+						}
+					}
+				}
+			}
+			if len(pubs) == 0 {
+				return
+			}
+			n++
+			var bad []string
+			for _, pc := range pubs {
+				for _, st := range stores {
+					if before(pc, st) {
+						fa := st.Addr.(*ssa.FieldAddr)
+						bad = append(bad, fmt.Sprintf("%s: field %s of the new %s is written after the object was published by the call at %s: a goroutine that finds it in the registry reads the field concurrently (or still unset)", p.Pos(st.Pos()), fieldOfAddr(fa).Name(), namedOf(al.Type()).Obj().Name(), p.Pos(pc.Pos())))
+					}
+				}
+			}
+			key := fmt.Sprintf("new %s in %s", namedOf(al.Type()).Obj().Name(), strings.TrimPrefix(fn.String(), modPath+"/"))
+			r.check(len(bad) == 0, rule, key, p.Pos(al.Pos()), "no field store after publication", strings.Join(dedupe(bad), " || "))
+		})
+	}
+	r.count("published_objects", n)
 }
